@@ -238,7 +238,10 @@ var strInvalidPieces = [][]byte{
 	{0xed, 0xa0, 0x80}, {0xed, 0xbf, 0xbf}, {0xf4, 0x90, 0x80, 0x80}, {0xc1, 0xbf}, {0xe0, 0x80, 0x80},
 }
 
-var strLens = []int{22, 23, 24, 25, 62, 63, 64, 65, 66, 91, 93, 123, 125, 127, 128, 255, 256, 257}
+// buffer boundaries, plus every length whose single length byte equals a UBJSON marker
+// (a length byte arriving at the start of a chunk must not be read as a marker)
+var strLens = []int{22, 23, 24, 25, 62, 63, 64, 65, 66, 91, 93, 123, 125, 127, 128, 255, 256, 257,
+	'#', '$', 'C', 'D', 'F', 'H', 'I', 'L', 'N', 'S', 'T', 'U', 'Z', 'd', 'i', 'l', 256 + 'N', 256 + '}'}
 
 // Str draws a byte string. validUTF8 restricts it to valid UTF-8.
 func Str(t *rapid.T, validUTF8 bool, label string) []byte {
